@@ -381,6 +381,10 @@ def gen_history(rng):
                               {"k": "expr", "e": B("lt", F(0), I(3))}]})
     faults.append({"op": "with", "obj": "o4", "seed": 5, "fault": "internal", "what": "list-exception-in-solve",
                    "inline": [{"k": "expr", "e": B("eq", {"k": "psel", "e": F(0), "hi": 5, "lo": 4}, I(1))}]})
+    # an exception while the expanded model is analysed (a bit-select written on a list element): after the array builder
+    # installed its overrides, before the solve
+    faults.append({"op": "with", "obj": "o4", "seed": 5, "fault": "analysis", "what": "list-exception-in-analysis",
+                   "inline": [{"k": "expr", "e": B("eq", {"k": "psel", "e": {"k": "elem", "l": 0, "idx": I(1)}, "hi": 0, "lo": 0, "bit": True}, I(1))}]})
     return base, faults, tail
 
 
